@@ -30,26 +30,26 @@ def world0 : World :=
 @[noinline] def tabLookup {α} (a : Array α) (dflt : Nat → α) : Nat → α :=
   fun i => if h : i < a.size then a[i] else dflt i
 
-def tab {α} (k : Nat) (f dflt : Nat → α) : Nat → α :=
-  -- the table is an argument of a non-inlined function: evaluated once, before the closure is made
-  tabLookup ((Array.range k).map f) dflt
+/-- the table of a finite map; a value (not a function), hence computed when it is bound -/
+def tabOf {α} (k : Nat) (f : Nat → α) : Array α := (Array.range k).map f
 
+/-- rebuild every finite map of the world as a table (the interpreter otherwise walks an ever longer
+chain of closures); outside `< n` nothing is ever touched, so the initial default is returned.
+The tables are bound by `let` in a function that returns a structure: they are evaluated once, here. -/
 def compact (w : World) : World :=
+  let aConns := tabOf (6 * w.n) w.g.conns
+  let aLabel := tabOf w.n w.label
+  let aStart := tabOf w.n w.starting
+  let aAuto := tabOf w.n w.automate
+  let aRecv := tabOf (6 * w.n) w.recv
+  let aFailed := tabOf w.n w.failed
   { w with
-    g := { w.g with conns := tab (6 * w.n) w.g.conns world0.g.conns },
-    label := tab w.n w.label world0.label,
-    starting := tab w.n w.starting world0.starting,
-    automate := tab w.n w.automate world0.automate,
-    recv := tab (6 * w.n) w.recv world0.recv,
-    failed := tab w.n w.failed world0.failed,
-    deps := tab w.n w.deps world0.deps,
-    parent := tab w.n w.parent world0.parent,
-    isWf := tab w.n w.isWf world0.isWf,
-    hasExec := tab w.n w.hasExec world0.hasExec,
-    fails := tab w.n w.fails world0.fails,
-    truth := tab w.n w.truth world0.truth,
-    running := tab w.n w.running world0.running,
-    hit := tab w.n w.hit world0.hit }
+    g := { w.g with conns := tabLookup aConns world0.g.conns },
+    label := tabLookup aLabel world0.label,
+    starting := tabLookup aStart world0.starting,
+    automate := tabLookup aAuto world0.automate,
+    recv := tabLookup aRecv world0.recv,
+    failed := tabLookup aFailed world0.failed }
 
 def bit (b : Bool) : String := if b then "1" else "0"
 
